@@ -204,6 +204,36 @@ def build_exe(config, name, sources, extra_flags=(), link_lib=True, extra_link=(
     return exe
 
 
+ILP32_FLAGS = ["-m32", "-march=i686", "-ffreestanding", "-fno-stack-protector", "-fno-exceptions", "-fno-rtti", "-fno-pic", "-std=c++17", "-O2", "-DDISABLE_ASM",
+               "-DVK_FREESTANDING"]
+
+
+def build_ilp32_exe(name, source):
+    """A static freestanding i386 executable (ILP32: int = long = pointer = 32 bits, 32-bit words) of the library's portable sources plus one
+    harness source and the run-time support in harness/ilp32/ - no 32-bit C library is needed, only a kernel that executes i386 programs.
+    Library sources that do not compile raise BuildError('library'), the harness BuildError('harness')."""
+    out = os.path.join(BUILD_ROOT, tree_hash(), "ilp32-i386")
+    os.makedirs(out, exist_ok=True)
+    exe = os.path.join(out, name)
+    with open(os.path.join(out, ".lock-" + name), "w") as lock:
+        fcntl.flock(lock, fcntl.LOCK_EX)
+        if os.path.exists(exe + ".ok"):
+            return exe
+        inc = ["-I", os.path.join(VERIF, "harness", "ilp32"), "-I", os.path.join(REPO, "include")]
+        cpp, _ = lib_sources(False)
+        jobs = [(src, os.path.join(out, "lib_" + os.path.relpath(src, REPO).replace("/", "_")[:-4] + ".o"), "library") for src in cpp]
+        jobs += [(os.path.join(VERIF, "harness", source), os.path.join(out, name + "_main.o"), "harness"),
+                 (os.path.join(VERIF, "harness", "ilp32", "rt.cpp"), os.path.join(out, "rt.o"), "harness")]
+        import concurrent.futures
+        with concurrent.futures.ThreadPoolExecutor(max_workers=8) as ex:
+            futs = [ex.submit(_run, [CXX] + ILP32_FLAGS + inc + ["-c", src, "-o", obj], kind) for src, obj, kind in jobs]
+            for f in futs:
+                f.result()
+        _run(["ld", "-m", "elf_i386", "-static", "-o", exe] + [obj for _, obj, _ in jobs], "harness")
+        open(exe + ".ok", "w").close()
+    return exe
+
+
 def asan_runtime():
     return subprocess.run([CXX, "-print-file-name=libclang_rt.asan-x86_64.so"], stdout=subprocess.PIPE, text=True).stdout.strip()
 
